@@ -18,7 +18,8 @@ static int ptrrep;                /* 1: keys/values are integers cast to pointer
 static int kcmp(const void * a, const void * b, void * p)
 {
     int x = ptrrep ? (int)(uintptr_t)a : *(const int *)a;
-    int y = ptrrep ? (int)(uintptr_t)b : *(const int *)b; (void)p;
+    int y = ptrrep ? (int)(uintptr_t)b : *(const int *)b;
+    h_check_priv(p);
     if (cmp_mod > 0) { x %= cmp_mod; y %= cmp_mod; }
     cmpcalls++;
     if (cmpmode == 1) return x - y;
@@ -44,9 +45,17 @@ static void * vptr(int v) { return ptrrep ? (void *)(uintptr_t)v : (void *)&valt
 /* per callback: key, val, number of live heap blocks at the time of the call (the node the
  * entry lives in must still be allocated while the user callback runs: map.c frees it afterwards) */
 static int clr_log[3 * MAXV], clr_n, clr_bad;
+/* header `nestclear 1`: the clear callback clears a second, always empty map with another callback and
+ * context before it returns (maps whose values own maps do this); it must not disturb the outer clear */
+static int nestclear;
+static cstl_map_t auxmap;
+static char aux_cookie;
+static void clr_aux(void * ip, void * p) { (void)ip; (void)p; clr_bad = 1; }   /* the auxiliary map is empty: never called */
 static void clr(void * ip, void * p)
 {
-    cstl_map_iterator_t * i = ip; (void)p;
+    cstl_map_iterator_t * i = ip;
+    h_check_priv(p);
+    if (nestclear) cstl_map_clear(&auxmap, clr_aux, &aux_cookie);
     if (clr_n < MAXV) {
         clr_log[3 * clr_n] = kidp(i->key, 1); clr_log[3 * clr_n + 1] = vidp(i->val, 1);
         clr_log[3 * clr_n + 2] = ha_live_count();
@@ -89,7 +98,7 @@ static void run_case(const struct h_case * c)
 
     for (i = 0; i < MAXK; i++) keytab[i] = i;
     ha_reset();
-    cmp_mod = 0; cmpmode = 0; cmpcalls = 0; ptrrep = 0;
+    cmp_mod = 0; cmpmode = 0; cmpcalls = 0; ptrrep = 0; nestclear = 0;
     for (i = 0; i < c->nlines; i++) {
         const struct h_line * l = &c->lines[i];
         int a = (int)h_int(l, 1), b = (int)h_int(l, 2), rc;
@@ -98,7 +107,8 @@ static void run_case(const struct h_case * c)
         if (h_weq(l, 0, "cmpmod")) { cmp_mod = a; continue; }
         if (h_weq(l, 0, "cmpmode")) { cmpmode = a; continue; }
         if (h_weq(l, 0, "ptrrep")) { ptrrep = a; continue; }
-        if (!started) { cstl_map_init(&map, kcmp, NULL); started = 1; }
+        if (h_weq(l, 0, "nestclear")) { nestclear = a; continue; }
+        if (!started) { cstl_map_init(&map, kcmp, H_COOKIE); cstl_map_init(&auxmap, kcmp, H_COOKIE); started = 1; }
         if (a < 0 || a >= MAXK || b < 0 || b >= MAXV) { printf("precond\n"); return; }
         ha_active = 1;
         cmpcalls = 0;
@@ -134,7 +144,7 @@ static void run_case(const struct h_case * c)
             printf("ok %zu", cstl_map_size(&map));
         } else if (h_weq(l, 0, "clear") || h_weq(l, 0, "clear_nocb")) {
             clr_n = 0; clr_bad = 0;
-            cstl_map_clear(&map, h_weq(l, 0, "clear") ? clr : NULL, NULL);
+            cstl_map_clear(&map, h_weq(l, 0, "clear") ? clr : NULL, H_COOKIE);
             ha_active = 0;
             printf("ok");
             for (k = 0; k < clr_n && k < MAXV; k++) printf(" %d %d %d", clr_log[3 * k], clr_log[3 * k + 1], clr_log[3 * k + 2]);
